@@ -587,3 +587,17 @@ def call_listmeth(e, st, ref: VListRef, name, args, node):
         yield st, VInt(m)
     else:
         raise Unsupported(f"list method {name}")
+
+
+def bi_str_join(e, st, args, kw, node):
+    """sep.join(xs) for a constant separator: an opaque function of the list of strings (strings are not modelled)"""
+    st, l = _materialize(e, st, args[0])
+    e.assumptions.add('str.join: an (uninterpreted) function of the sequence of strings; "" for the empty sequence')
+    if not l.arrs:
+        return st, VStr('')
+    f = z3.Function('str_join', l.arrs[0].sort(), z3.IntSort(), z3.IntSort(), Ref)
+    r = VObj(f(l.arrs[0], l.off, l.n), ('str',))
+    st.assume(z3.Implies(l.n == 0, r.t == e.str_const('').t))
+    # a join whose first element is a non-empty string is non-empty
+    st.assume(z3.Implies(z3.And(l.n >= 1, z3.Select(l.arrs[0], l.off) != e.str_const('').t), r.t != e.str_const('').t))
+    return st, r
